@@ -59,16 +59,19 @@ ALL_REPS = tuple("ti:" + f for f in TI_FORMS) + TD_REPS
 # requested times are t0 + OFFSETS[i]; index 5 is the INTEGER 1 (+ t0)
 OFFSETS = (0.2, 0.5, 0.1, 0.0, -0.15, 1)
 NPFLOAT = 6  # pseudo index: numpy.float64(t0 + 0.35)
-# pseudo indices 7/8: ONE LONG HOP (and a short hop beyond it).  Its length is
-# K / max|eig(H)| with K chosen (measured on the unchanged tree, seeds 0-2, all
-# configurations of the 'longhop' group) so that the dop853 / dopri5 stepper
-# needs clearly more than scipy's DEFAULT cap of 500 internal steps per
-# integrate() call - quimb lifts that cap with nsteps=0, and a hop that is
-# silently cut short only shows when a single hop is that long.
+# pseudo indices 7/8: ONE LONG HOP (and a short hop beyond it), long enough
+# that the dop853 / dopri5 stepper needs clearly more than scipy's DEFAULT cap
+# of 500 internal steps per integrate() call - quimb lifts that cap with
+# nsteps=0, and a hop that is silently cut short only shows when a single hop
+# is that long.  The number of steps per unit time varies 4x with the data, so
+# the length is calibrated per configuration by a PILOT hop of 60..350 steps
+# (below the cap, hence identical whether or not the cap is lifted) with a
+# counting callback: T = LONG_TARGET_STEPS / (pilot steps per unit time).
 LONG = 7
 LONGPLUS = 8
-LONG_K = {(False, False): 800.0, (False, True): 640.0, (True, False): 190.0, (True, True): 250.0}  # (int_small_step, density operator)
+LONG_TARGET_STEPS = 850
 LONG_MIN_STEPS = 600
+LONG_K = {(False, False): 800.0, (False, True): 640.0, (True, False): 190.0, (True, True): 250.0}  # fallback (int_small_step, density operator): T = K / max|eig H|
 
 # integrator tolerance of scipy's dopri5/dop853 as set up by quimb: rtol 1e-6
 INT_TOL = 20 * 1e-6  # DESIGN: "ODE accuracy only to 20x the integrator tolerance"
@@ -99,9 +102,39 @@ def _resolved_method(cfg):
     return "solve" if _form(cfg) in ("solved", "solvedlist") else cfg.method
 
 
+_LONG_T = {}
+
+
+def _pilot_steps(cfg, T0):
+    w = World()
+    _construct(w, cfg._replace(cb="f2", stop="none", prog=False))
+    w.evo.update_to(cfg.t0 + T0)
+    return len(w.rec) - 1
+
+
 def _long_T(cfg):
-    ref = _get_ref(cfg)
-    return round(LONG_K[(bool(cfg.small), _isdop(cfg))] / float(np.max(np.abs(ref.w))), 3)
+    """Deterministic function of (checked tree, VERIF_SEED, cfg)."""
+    key = (cfg.state, cfg.pform, cfg.ham, cfg.hdt, cfg.t0, bool(cfg.small), cfg.d)
+    if key not in _LONG_T:
+        rho = float(np.max(np.abs(_get_ref(cfg).w)))
+        T = LONG_K[(bool(cfg.small), _isdop(cfg))] / rho
+        try:
+            T0 = T / 8.0
+            for _ in range(8):
+                n = _pilot_steps(cfg, T0)
+                if n > 350:
+                    T0 /= 2.0
+                elif n < 60:
+                    T0 *= 3.0
+                else:
+                    T = LONG_TARGET_STEPS * T0 / n
+                    break
+        except core.HarnessError:
+            raise
+        except Exception:  # noqa - a tree on which the pilot fails keeps the fallback length
+            pass
+        _LONG_T[key] = round(T, 3)
+    return _LONG_T[key]
 
 
 def _time(cfg, idx):
@@ -1037,11 +1070,13 @@ def group_configs(group, tier):
     elif group == "longhop":
         # one hop that needs > 500 internal integrator steps (see LONG)
         if th:
-            axes = (STATES, ("ti:qarray", "ti:csr", "ti:linop", "tdcomm:qarray", "tdcomm:csr"), (False, True), ("none", "f2"), (0, 0.3), (3, 4), ("complex", "real"))
+            axes = [(STATES, ("ti:qarray", "ti:csr", "ti:linop", "tdcomm:qarray", "tdcomm:csr"), (False, True), ("none", "f2"), (0.3,), (3, 4), ("complex",)),
+                    (STATES, ("ti:qarray", "ti:csr", "tdcomm:csr"), (False, True), ("none",), (0,), (2, 3), ("real", "degen"))]
         else:
-            axes = (("ket", "dop_mixed"), ("ti:qarray", "ti:csr", "tdcomm:qarray"), (False, True), ("none", "f2"), (0.3,), (3,), ("complex",))
-        for st, rep_, sm, cb, t0, d, hdt in itertools.product(*axes):
-            out.append(_cfg(method="integrate", state=st, ham=rep_, small=sm, cb=cb, t0=t0, d=d, hdt=hdt))
+            axes = [(("ket", "dop_mixed"), ("ti:qarray", "ti:csr", "tdcomm:qarray"), (False, True), ("none", "f2"), (0.3,), (3,), ("complex",))]
+        for ax in axes:
+            for st, rep_, sm, cb, t0, d, hdt in itertools.product(*ax):
+                out.append(_cfg(method="integrate", state=st, ham=rep_, small=sm, cb=cb, t0=t0, d=d, hdt=hdt))
     else:
         raise KeyError(group)
     # complete, duplicate free, order rotated by the seed only
@@ -1209,7 +1244,7 @@ def run(ctx):
         "any exception at construction / first update (or a backwards request with integrate/expm) is a rejection ('rejects what it does not support'); it must leave a "
         "correct (t, state) pair behind, and support must not depend on d (differential re-run of the same history at another dimension)",
         "scipy's complex_ode restarts every integrate() from (t, y) with the configured first step, so merging integrate states on (t, y rounded to 1e-9, callback record) keeps the futures",
-        "histories with a long hop (length K/max|eig H|, 700-2500 accepted steps, measured per run in notes.longhop_accepted_steps) are compared at 3e-3 = 3000 steps x rtol 1e-6 (worst case linear "
+        "histories with a long hop (length calibrated per configuration by a sub-cap pilot hop to ~850 accepted steps, measured per run in notes.longhop_accepted_steps) are compared at 3e-3 = 3000 steps x rtol 1e-6 (worst case linear "
         "accumulation of the per-step local error; measured <= 1e-4); the requested time must still be reported exactly",
         "per event CPU watchdog of 60 s (normal: milliseconds) that stops the worker hard -> harness error, exit 2: an exception raised inside scipy's Fortran solout callback can be swallowed by f2py "
         "and turn into an endless integration (seen with a seeded callback-plumbing bug), and a Python-level timeout exception would be swallowed the same way",
@@ -1241,7 +1276,7 @@ def run(ctx):
         ctx.notes["longhop_accepted_steps"] = {"min": min(steps), "max": max(steps), "scipy_default_cap": 500, "hop_length_min": min(r["T"] for r in pr), "hop_length_max": max(r["T"] for r in pr), "configs": len(pr)}
         short = [r for r in pr if r["reached"] and r["steps"] < LONG_MIN_STEPS]
         if short:
-            raise core.HarnessError("long hop reached its time in only %d accepted steps (< %d): it would not exceed scipy's default cap of 500 - recalibrate LONG_K; %r" % (short[0]["steps"], LONG_MIN_STEPS, short[0]))
+            ctx.cap("long hop of %d configuration(s) reached its time in < %d accepted steps (e.g. %r): not clearly beyond scipy's default cap of 500" % (len(short), LONG_MIN_STEPS, short[0]))
     for g in groups:
         seq.explore(ctx, {"group": g, "tier": tier}, 1 + depths[g], label=g)
         ctx.subproducts.append("%s: %d configurations x all event histories of length <= %d over %d events complete" % (g, len(group_configs(g, tier)), depths[g], len(group_events(g, tier))))
